@@ -219,16 +219,19 @@ theorem hasK_interR_plain {wk : K} {isWild : K → Bool} {chans : List (List (Fo
       rw [hwc, Nat.add_zero]
       exact (hcount u).mpr hall
 
-def Status.flip : Status → Status
+/-- status of a base entry once the status of the subtracted entry for the same key is known:
+subtracted `HasRelationship` ⇒ `NoRelationship`; subtracted `NoRelationship` ⇒ the base status is kept -/
+def Status.minus (sub base : Status) : Status :=
+  match sub with
   | .has => .no
-  | .no => .has
+  | .no => base
 
 /-- wildcard-free stage: `expandExclusion` only uses its second and third case -/
 theorem exclStep_plain {wk : K} {isWild : K → Bool} {bm sm : List (Found K)}
     (hb : ∀ f ∈ bm, f.user ≠ wk) (hs : ∀ f ∈ sm, f.user ≠ wk) (fu : Found K) :
     exclStep wk isWild bm sm fu =
       match sm.find? (fun s => s.user = fu.user) with
-      | some s => [{ user := fu.user, status := s.status.flip }]
+      | some s => [{ user := fu.user, status := s.status.minus fu.status }]
       | none => [{ user := fu.user, status := fu.status }] := by
   have h1 : bm.any (fun f => decide (f.user = wk)) = false := by
     rw [List.any_eq_false]; intro f hf; simpa using hb f hf
@@ -238,14 +241,14 @@ theorem exclStep_plain {wk : K} {isWild : K → Bool} {bm sm : List (Found K)}
   simp only [h1, h2, Bool.false_eq_true, if_false, Bool.false_or]
   cases hfind : sm.find? (fun s => decide (s.user = fu.user)) with
   | none => simp
-  | some s => cases hst : s.status <;> simp [hst, Status.flip]
+  | some s => cases hst : s.status <;> simp [hst, Status.minus]
 
 theorem hasK_exclR_plain {wk : K} {isWild : K → Bool} {bm sm : List (Found K)}
     (hb : ∀ f ∈ bm, f.user ≠ wk) (hs : ∀ f ∈ sm, f.user ≠ wk) {u : K} :
     hasK (exclR wk isWild bm sm) u = true ↔
       ∃ fu ∈ bm, fu.user = u ∧
         (match sm.find? (fun s => s.user = u) with
-         | some s => s.status = .no
+         | some s => s.status = .no ∧ fu.status = .has
          | none => fu.status = .has) := by
   rw [hasK_iff]
   unfold exclR
@@ -270,7 +273,8 @@ theorem hasK_exclR_plain {wk : K} {isWild : K → Bool} {bm sm : List (Found K)}
       subst hu
       refine ⟨rfl, ?_⟩
       rw [hfind]
-      cases hs' : s.status <;> simp [hs', Status.flip] at hst ⊢
+      cases hs' : s.status <;> simp [hs', Status.minus] at hst ⊢
+      exact hst
   · rintro ⟨fu, hfu, hu, hcase⟩
     subst hu
     cases hfind : sm.find? (fun s => decide (s.user = fu.user)) with
@@ -280,9 +284,9 @@ theorem hasK_exclR_plain {wk : K} {isWild : K → Bool} {bm sm : List (Found K)}
       rw [exclStep_plain hb hs, hfind]; simp
     | some s =>
       rw [hfind] at hcase
-      refine ⟨{ user := fu.user, status := s.status.flip }, List.mem_flatMap.mpr ⟨fu, hfu, ?_⟩, rfl, ?_⟩
+      refine ⟨{ user := fu.user, status := s.status.minus fu.status }, List.mem_flatMap.mpr ⟨fu, hfu, ?_⟩, rfl, ?_⟩
       · rw [exclStep_plain hb hs, hfind]; simp
-      · simp only at hcase ⊢; rw [hcase]; rfl
+      · simp only at hcase ⊢; rw [hcase.1]; exact hcase.2
 
 theorem exclR_plain {wk : K} {isWild : K → Bool} {bm sm : List (Found K)}
     (hb : PlainL wk isWild bm) (hs : PlainL wk isWild sm) : PlainL wk isWild (exclR wk isWild bm sm) := by
